@@ -58,6 +58,7 @@ impl Cfg {
             .and_then(|s| s.parse::<usize>().ok())
             .unwrap_or_else(|| std::thread::available_parallelism().map(|n| n.get()).unwrap_or(4))
             .max(1);
+        let _ = CURRENT_PROPERTY.set(prop.to_string());
         Cfg { prop: prop.to_string(), tier, seed, jobs }
     }
 }
@@ -112,10 +113,24 @@ pub struct Stats {
     pub harness_errors: Vec<String>,
     pub exhaustive: Vec<String>,
     pub notes: Vec<String>,
+    /// occurrences of open known findings: "signature [trigger]" -> (count, what)
+    pub known_hits: BTreeMap<String, (u64, String)>,
 }
 
 pub const MAX_SAMPLES: usize = 6;
 pub const MAX_VIOLATIONS_KEPT: usize = 40;
+
+/// The property this process decides (set when its `Cfg` is built) and the committed known findings, so that a
+/// violation can be classified when it is recorded: occurrences of *open known findings* are only counted and never
+/// take one of the `MAX_VIOLATIONS_KEPT` places, which would otherwise let a frequent known finding crowd out a new
+/// violation of the same property.
+static CURRENT_PROPERTY: std::sync::OnceLock<String> = std::sync::OnceLock::new();
+static KNOWN: std::sync::OnceLock<Vec<KnownFinding>> = std::sync::OnceLock::new();
+
+fn known_for_current(v: &Violation) -> Option<&'static KnownFinding> {
+    let prop = CURRENT_PROPERTY.get()?;
+    match_known(KNOWN.get_or_init(load_known_findings), prop, v)
+}
 
 impl Stats {
     pub fn count(&mut self, key: &str) {
@@ -146,6 +161,11 @@ impl Stats {
     }
     pub fn violation(&mut self, v: Violation) {
         self.count("violations_raw");
+        if let Some(k) = known_for_current(&v) {
+            let e = self.known_hits.entry(format!("{} [{}]", k.signature, k.trigger)).or_insert((0, k.what.clone()));
+            e.0 += 1;
+            return;
+        }
         // keep at most a few per signature so that one defect does not mask the others
         let same = self.violations.iter().filter(|o| o.signature == v.signature && o.tags == v.tags).count();
         if same < 3 && self.violations.len() < MAX_VIOLATIONS_KEPT {
@@ -179,6 +199,9 @@ impl Stats {
         for (k, v) in other.inconclusive {
             *self.inconclusive.entry(k).or_insert(0) += v;
         }
+        for (k, (n, what)) in other.known_hits {
+            self.known_hits.entry(k).or_insert((0, what)).0 += n;
+        }
         for e in other.harness_errors {
             if self.harness_errors.len() < 20 {
                 self.harness_errors.push(e);
@@ -207,6 +230,7 @@ impl Stats {
             "harness_errors": self.harness_errors,
             "exhaustive": self.exhaustive,
             "notes": self.notes,
+            "known_hits": self.known_hits.iter().map(|(k, (n, what))| (k.clone(), json!([n, what]))).collect::<BTreeMap<_, _>>(),
         })
     }
     pub fn from_json(v: &Value) -> Self {
@@ -245,6 +269,11 @@ impl Stats {
         }
         if let Some(a) = v["notes"].as_array() {
             s.notes = a.iter().filter_map(|t| t.as_str().map(String::from)).collect();
+        }
+        if let Some(m) = v["known_hits"].as_object() {
+            for (k, x) in m {
+                s.known_hits.insert(k.clone(), (x[0].as_u64().unwrap_or(0), x[1].as_str().unwrap_or("").to_string()));
+            }
         }
         s
     }
@@ -558,7 +587,7 @@ pub fn match_known<'a>(known: &'a [KnownFinding], prop: &str, v: &Violation) -> 
 pub fn finish(def: &PropertyDef, cfg: &Cfg, stats: &Stats, started: Instant) -> i32 {
     let known = load_known_findings();
     let mut new_violations: Vec<(&Violation, PathBuf)> = Vec::new();
-    let mut known_hits: BTreeMap<String, (u64, String)> = BTreeMap::new();
+    let mut known_hits: BTreeMap<String, (u64, String)> = stats.known_hits.clone();
     // development sweeps (tools/) redirect their output so that they never touch the committed evidence
     let out_root = std::env::var_os("VERIF_OUT_ROOT").map(PathBuf::from).unwrap_or_else(verif_root);
     let replay_dir = out_root.join("replays").join(def.id);
